@@ -14,7 +14,9 @@ pub fn encoding(data: &[u8], hint: Option<String>) -> Option<&'static Encoding> 
 }
 
 pub(crate) fn decode(data: &[u8], hint: Option<String>) -> String {
-    let enc = encoding(data, hint).unwrap();
+    // if nothing can be detected or the declared encoding is unknown, try
+    // UTF-8; the parser then reports what is wrong with the text
+    let enc = encoding(data, hint).unwrap_or(encoding_rs::UTF_8);
     let (s, _, _) = enc.decode(data);
     s.into_owned()
 }
